@@ -514,61 +514,61 @@ void *SZ_decompress(int dataType, unsigned char *bytes, size_t byteLength, size_
 
 	if(dataType == SZ_FLOAT)
 	{
-		float *newFloatData;
+		float *newFloatData = NULL;
 		SZ_decompress_args_float(&newFloatData, r5, r4, r3, r2, r1, bytes, byteLength, 0, NULL);
 		return newFloatData;
 	}
 	else if(dataType == SZ_DOUBLE)
 	{
-		double *newDoubleData;
+		double *newDoubleData = NULL;
 		SZ_decompress_args_double(&newDoubleData, r5, r4, r3, r2, r1, bytes, byteLength, 0, NULL);
 		return newDoubleData;
 	}
 	else if(dataType == SZ_INT8)
 	{
-		int8_t *newInt8Data;
+		int8_t *newInt8Data = NULL;
 		SZ_decompress_args_int8(&newInt8Data, r5, r4, r3, r2, r1, bytes, byteLength);
 		return newInt8Data;
 	}
 	else if(dataType == SZ_INT16)
 	{
-		int16_t *newInt16Data;
+		int16_t *newInt16Data = NULL;
 		SZ_decompress_args_int16(&newInt16Data, r5, r4, r3, r2, r1, bytes, byteLength);
 		return newInt16Data;
 	}
 	else if(dataType == SZ_INT32)
 	{
-		int32_t *newInt32Data;
+		int32_t *newInt32Data = NULL;
 		SZ_decompress_args_int32(&newInt32Data, r5, r4, r3, r2, r1, bytes, byteLength);
 		return newInt32Data;
 	}
 	else if(dataType == SZ_INT64)
 	{
-		int64_t *newInt64Data;
+		int64_t *newInt64Data = NULL;
 		SZ_decompress_args_int64(&newInt64Data, r5, r4, r3, r2, r1, bytes, byteLength);
 		return newInt64Data;
 	}
 	else if(dataType == SZ_UINT8)
 	{
-		uint8_t *newUInt8Data;
+		uint8_t *newUInt8Data = NULL;
 		SZ_decompress_args_uint8(&newUInt8Data, r5, r4, r3, r2, r1, bytes, byteLength);
 		return newUInt8Data;
 	}
 	else if(dataType == SZ_UINT16)
 	{
-		uint16_t *newUInt16Data;
+		uint16_t *newUInt16Data = NULL;
 		SZ_decompress_args_uint16(&newUInt16Data, r5, r4, r3, r2, r1, bytes, byteLength);
 		return newUInt16Data;
 	}
 	else if(dataType == SZ_UINT32)
 	{
-		uint32_t *newUInt32Data;
+		uint32_t *newUInt32Data = NULL;
 		SZ_decompress_args_uint32(&newUInt32Data, r5, r4, r3, r2, r1, bytes, byteLength);
 		return newUInt32Data;
 	}
 	else if(dataType == SZ_UINT64)
 	{
-		uint64_t *newUInt64Data;
+		uint64_t *newUInt64Data = NULL;
 		SZ_decompress_args_uint64(&newUInt64Data, r5, r4, r3, r2, r1, bytes, byteLength);
 		return newUInt64Data;
 	}
